@@ -24,6 +24,7 @@ type Decl struct {
 	Mode  string // "" default
 	File  int
 	Extra string // mode action text
+	NG    bool   `json:",omitempty"` // token: written NAME = 'lit' .*? '!' (its unique text is lit + "!"); several such rules of a mode end in look-alike states
 	Use   string `json:",omitempty"` // token: a macro the rule ends with (NAME = 'lit' USE*), declared before or AFTER this rule
 }
 
@@ -72,6 +73,7 @@ func genCase(rt *rapid.T) *Case {
 		switch k := ri(rt, 0, 9, "kind"); {
 		case k <= 5:
 			d.Kind, d.Name = "token", tokName(seq)
+			d.NG = ri(rt, 0, 3, "ng") == 0
 			toks = append(toks, d.Name)
 		case k <= 7:
 			d.Kind = "frag"
@@ -173,6 +175,9 @@ func (c *Case) render() (files map[string]string, order []string) {
 				switch d.Kind {
 				case "token":
 					order = append(order, d.Name)
+					if d.NG {
+						return fmt.Sprintf("%s = '%s' .*? '!'", d.Name, d.Lit)
+					}
 					if d.Use != "" {
 						return fmt.Sprintf("%s = '%s' %s*", d.Name, d.Lit, d.Use)
 					}
@@ -309,7 +314,11 @@ func check(c *Case, out map[string]string) string {
 		m := tabs[mn]
 		st := 0
 		ok := true
-		for _, ch := range d.Lit {
+		text := d.Lit
+		if d.NG {
+			text += "!"
+		}
+		for _, ch := range text {
 			n, has := m.States[st].Next(ch)
 			if !has {
 				ok = false
@@ -497,7 +506,7 @@ func evalCompiled(run *ev.Run, cases []*Case) ([]string, error) {
 func TestC19(t *testing.T) {
 	run := ev.Start("C19")
 	defer run.Finish(t)
-	run.Rule = "specifications of 1-3 files (read in file-name order) with 2-14 declarations: tokens (names of varied legal shapes), fragments (some with @emit of any token), @external lines with 1-3 names, spread over the default mode and 0-3 named modes placed between other declarations; every token/fragment has a unique literal spelling; half of the smaller specifications declare 1-2 macros at any place (any file), used by tokens declared before or after them; the parser (in any file) uses a random subset of the tokens and @external names as alternatives of the start rule; " +
+	run.Rule = "specifications of 1-3 files (read in file-name order) with 2-14 declarations: tokens (names of varied legal shapes), fragments (some with @emit of any token), @external lines with 1-3 names, spread over the default mode and 0-3 named modes placed between other declarations; every token/fragment has a unique literal spelling; a quarter of the tokens are written with a non-greedy repetition (NAME = 'lit' .*? '!'), so that several rules of a mode end in look-alike non-greedy accepting states; half of the smaller specifications declare 1-2 macros at any place (any file), used by tokens declared before or after them; the parser (in any file) uses a random subset of the tokens and @external names as alternatives of the start rule; " +
 		"oracle: constants of base.gen.go (evaluated with go/types) are exactly EOF=0, ERROR=1 and the declared names numbered 2.. in text order; the _TokenToString switch maps each to its name and everything else to \"???\" (a sample is compiled and called for every value in [-1,n+1]); the decoded lexer table of the declaring mode accepts each unique spelling with the constant of its token / @emit target; the decoded _actions row of state 0 is keyed by exactly the constants of the parser's tokens and the follow-up states reduce on key 0 (EOF); " +
 		"non-trivial = spec with a token inside a mode, an @external before a token, an @emit and >=2 files; distinct by file texts"
 	run.Assumptions = []string{"files are processed in file-name order (filepath.Glob)", "the parser may refer to lexer tokens and to @external names alike"}
